@@ -226,6 +226,7 @@ Proof.
       destruct (encode_ascii v); [apply frame_refl|].
       apply ok_or_frame; [|exact Hwf]. intros bs Hb. apply cstore_length in Hb; [|exact Hc]. cbn in Hb. lia.
   - (* TString *) destruct k; try apply frame_refl.
+    destruct (is_chararr n v); [apply frame_refl|].
     destruct (if en then string_validate_one n v else None); [apply frame_refl|].
     destruct (encode_ascii v) as [x|cs]; [apply frame_refl|].
     set (m0 := if (1 <? n)%nat && (length cs <? n)%nat then splice m (f_off f) (repeat 0 n) else m).
@@ -371,7 +372,8 @@ Proof.
     destruct (is_cinst (fst char_ctype) (snd char_ctype) v); [eapply ok_or_atomic; eauto|].
     destruct (char_validate_one v); [now inversion H|].
     destruct (encode_ascii v); [now inversion H|]. eapply ok_or_atomic; eauto.
-  - destruct k; try now inversion H. destruct (string_validate_one n v); [now inversion H|].
+  - destruct k; try now inversion H. destruct (is_chararr n v); [now inversion H|].
+    destruct (string_validate_one n v); [now inversion H|].
     destruct (encode_ascii v) as [x|cs]; [now inversion H|].
     (* the clearing only happens when the store that follows cannot fail *)
     destruct ((1 <? n)%nat && (length cs <? n)%nat) eqn:Ec; [|eapply ok_or_atomic; eauto].
